@@ -1,10 +1,85 @@
 import MazeVerif.DriverOps.Util
+import MazeVerif.Model.Vocab
 namespace MZ.Drv.C14
-open Lean MZ.Drv
+open Lean MZ.Drv MZ.Vocab
 
-/-- driver ops of property C14 (`"op": "C14.<name>"`) -/
-def handle (op : String) (_j : Json) : R Json := do
+def jPairs (l : List P) : Json := Json.arr (l.map fun x => Json.arr #[jNat x.1, jNat x.2]).toArray
+
+def asPair (j : Json) : R P := do
+  match ← asNatList j with
+  | [a, b] => pure (a, b)
+  | _ => throw "pair: expected [x,y]"
+
+def parseMode (s : String) : R Mode :=
+  match s with
+  | "AOTP_UT_rasterized" => pure .rasterized
+  | "AOTP_UT_uniform" => pure .uniform
+  | "AOTP_CTT_indexed" => pure .indexed
+  | _ => throw s!"unknown mode {s}"
+
+/-- `"voc"`: `"modular"` or `{"mode":…, "n": nat | null}` -/
+inductive VocSel where
+  | modular
+  | legacy (m : Mode) (size : Option Nat)
+
+def getVoc (j : Json) : R VocSel := do
+  let v ← fld j "voc"
+  match v with
+  | Json.str "modular" => pure .modular
+  | _ =>
+    let m ← parseMode (← getStr v "mode")
+    let size ← match optFld v "n" with
+      | none => pure none
+      | some x => pure (some (← x.getNat?))
+    pure (.legacy m size)
+
+def jExcept {α} (f : α → Json) : Except Err α → Json
+  | .ok a => obj [("ok", f a)]
+  | .error e => obj [("err", Json.str e.name)]
+
+/-- ops:
+  * `C14.vocab` {} → {vocab, from_blocks, specials, head_n, ut_n}
+  * `C14.corner` {n, impl?: [[x,y],…]} → {corner, ndindex, spec_ok?}
+  * `C14.token_arr` {mode, n: nat|null} → {arr: [...]|null}
+  * `C14.lookup` {voc, tokens} → {ids: [nat|null]}
+  * `C14.encode` {voc, tokens} → {ok:[…]} | {err}
+  * `C14.decode` {voc, ids} → {ok:[…]} | {err} -/
+def handle (op : String) (j : Json) : R Json := do
   match op with
+  | "C14.vocab" =>
+    pure <| obj [("vocab", jStrs vocab), ("from_blocks", jStrs vocabFromBlocks), ("specials", jStrs specials),
+                 ("head_n", jNat headTokens.length), ("ut_n", jNat utTokens.length)]
+  | "C14.corner" =>
+    let n ← getNat j "n"
+    let base := [("corner", jPairs (cornerFirst n)), ("ndindex", jPairs (ndindex n))]
+    match optFld j "impl" with
+    | none => pure <| obj base
+    | some x =>
+      let l ← (← x.getArr?).toList.mapM asPair
+      pure <| obj (base ++ [("spec_ok", Json.bool (cornerSpecOK n l))])
+  | "C14.token_arr" =>
+    let m ← parseMode (← getStr j "mode")
+    let size ← match optFld j "n" with
+      | none => pure none
+      | some x => pure (some (← x.getNat?))
+    pure <| obj [("arr", match tokenArr? m size with | none => Json.null | some a => jStrs a)]
+  | "C14.lookup" =>
+    let toks ← (← getArr j "tokens").mapM (·.getStr?)
+    let voc ← match ← getVoc j with
+      | .modular => pure vocab
+      | .legacy m (some n) => pure (tokenArr m n)
+      | .legacy _ none => throw "lookup needs a size"
+    pure <| obj [("ids", Json.arr (toks.map fun t => match tokenToIndex voc t with | some i => jNat i | none => Json.null).toArray)]
+  | "C14.encode" =>
+    let toks ← (← getArr j "tokens").mapM (·.getStr?)
+    match ← getVoc j with
+    | .modular => pure <| jExcept jNats (encode vocab toks)
+    | .legacy m size => pure <| jExcept jNats (legacyEncode m size toks)
+  | "C14.decode" =>
+    let ids ← getIntList j "ids"
+    match ← getVoc j with
+    | .modular => pure <| jExcept jStrs (decode vocab ids)
+    | .legacy m size => pure <| jExcept jStrs (legacyDecode m size ids)
   | _ => throw s!"unknown op {op}"
 
 end MZ.Drv.C14
